@@ -144,7 +144,10 @@ class BaseFunctionSpace(AbstractFunctionSpace, UFLObject):
 
     def __repr__(self):
         """Representation."""
-        return f"BaseFunctionSpace({self._ufl_domain!r}, {self._ufl_element!r})"
+        # The label takes part in == and in the hash data, so it must be printed;
+        # the default (empty) label is omitted to keep the usual repr unchanged.
+        label = f", label={self._label!r}" if self._label else ""
+        return f"BaseFunctionSpace({self._ufl_domain!r}, {self._ufl_element!r}{label})"
 
     @property
     def value_shape(self) -> tuple[int, ...]:
@@ -177,7 +180,10 @@ class FunctionSpace(BaseFunctionSpace, UFLObject):
 
     def __repr__(self):
         """Representation."""
-        return f"FunctionSpace({self._ufl_domain!r}, {self._ufl_element!r})"
+        # The label takes part in == and in the hash data, so it must be printed;
+        # the default (empty) label is omitted to keep the usual repr unchanged.
+        label = f", label={self._label!r}" if self._label else ""
+        return f"FunctionSpace({self._ufl_domain!r}, {self._ufl_element!r}{label})"
 
     def __str__(self):
         """String."""
@@ -208,7 +214,10 @@ class DualSpace(BaseFunctionSpace, UFLObject):
 
     def __repr__(self):
         """Representation."""
-        return f"DualSpace({self._ufl_domain!r}, {self._ufl_element!r})"
+        # The label takes part in == and in the hash data, so it must be printed;
+        # the default (empty) label is omitted to keep the usual repr unchanged.
+        label = f", label={self._label!r}" if self._label else ""
+        return f"DualSpace({self._ufl_domain!r}, {self._ufl_element!r}{label})"
 
     def __str__(self):
         """String."""
